@@ -20,7 +20,7 @@ def run(tier, seed, replay=None):
     wd = vctl_common.run_dir(pid)
     v = vlib.Verdict(pid, tier, seed)
     quick = tier == "quick"
-    inst = 1 if quick else 2
+    inst = 1   # one token variant per vector and run (the variants rotate with the seed)
     with cf.ThreadPoolExecutor(max_workers=4) as ex:
         # the two exports first (in parallel), then the harness runs while TLC refutes the two short-cuts and finds the witnesses
         f1 = ex.submit(vlib.tlc_must_pass, SPEC, "ControlSession_c15.cfg", wd, 1, 600)
@@ -37,7 +37,7 @@ def run(tier, seed, replay=None):
             # absent in the cells the property protects; the quick selection of sequences
             args += ["-subset", "1"]
         else:
-            args += ["-seqall"]
+            args += ["-seqmid"]
         if replay:
             args += ["-replay", replay]
         fh = ex.submit(vlib.harness_json, vctl, args, wd, 3000)
@@ -88,7 +88,7 @@ def run(tier, seed, replay=None):
                 "incl. none/empty/upper-case; other key; alg none with and without a borrowed signature; HS256/HS512 keyed with the public-key PEM; "
                 "truncated; empty; garbage) and a live unit of the class; effect = new unit / state change / runner pid gone / directory removed / "
                 "stream bytes received, from snapshots taken over the Unix socket and the file system. Then token life-cycle sequences of part c15seq "
-                "(use a, [tick past expiry, [restart]], use b - all 300 in thorough, the same-command, submit-token-for-other-command, reuse-while-valid "
+                "(use a, [tick past expiry, [restart]], use b - thorough: all same-command and submit-token pairs, the same-command, submit-token-for-other-command, reuse-while-valid "
                 "and after-restart ones in quick): a token living 3-4 s is accepted, and the identical string is replayed >= 1.5 s after its expiry; and "
                 "same-connection sequences (a command with a valid token, then a command for the same / another unit with its own token or with NONE, "
                 "per connection kind: judged by its own token only); "
